@@ -25,7 +25,8 @@ CONSTANTS Conns,            \* client connections (model values)
           ReadyOnlyIfListening, \* TRUE: listenerReady is set only when net.Listen succeeded
           ListenFails,      \* TRUE: net.Listen fails (port in use, malformed address) in this configuration
           AcceptErrorsFatal,\* TRUE: a temporary Accept error (EMFILE) makes Run return
-          TLSMode           \* "none" | "server" (TLS listener, server authentication) | "mtls" (client certificate required and verified)
+          TLSMode,          \* "none" | "server" (TLS listener, server authentication) | "mtls" (client certificate required and verified)
+          ReadTimeout       \* TRUE: the server was created WithReadTimeout: one read deadline per connection, armed when it is accepted
 
 VARIABLES
   run,        \* pc of the Run goroutine: "idle" | "prelisten" | "loop" | "accept" | "register" | "returned"
@@ -54,17 +55,18 @@ VARIABLES
   ckind,      \* [Conns -> client kind: "valid" | "silent" | "plaintext" | "garbage" | "nocert" | "wrongca"] (relevant when TLSMode # "none")
   tls,        \* [Conns -> "plain" | "tls"] transport of the connection (TLS listener: after the handshake; StartTLS: after the upgrade)
   nr,         \* [Conns -> BOOLEAN] the client has stopped reading: writes to it block once the buffers are full
+  rdl,        \* [Conns -> BOOLEAN] the connection's read deadline (WithReadTimeout) has expired: every read fails from now on
   dispatched  \* history: [Conns -> Seq(<<kind, Request.ID>>)] what the read loop handed to handlers, in order
 
-vars == <<run, runArg, runRes, listener, ready, ctxDone, connWg, nextID, alive, muR, stop, acceptFault, net, inq, sent, ckind, nr, cpc, tls, cid, nreq, reqWg, hs, sock, onclose, afterUnbind, dispatched>>
+vars == <<run, runArg, runRes, listener, ready, ctxDone, connWg, nextID, alive, muR, stop, acceptFault, net, inq, sent, ckind, nr, rdl, cpc, tls, cid, nreq, reqWg, hs, sock, onclose, afterUnbind, dispatched>>
 srvVars == <<run, runArg, runRes, listener, ready, ctxDone, connWg, nextID, alive, muR, stop, acceptFault>>
-cliVars == <<net, inq, sent, ckind, nr>>
+cliVars == <<net, inq, sent, ckind, nr, rdl>>
 conVars == <<cpc, tls, cid, nreq, reqWg, hs, sock, onclose, afterUnbind, dispatched>>
 
 Init ==
   /\ run = "idle" /\ runArg = "none" /\ runRes = "none" /\ listener = "none" /\ ready = FALSE /\ ctxDone = FALSE
   /\ connWg = 0 /\ nextID = 0 /\ alive = TRUE /\ muR = {} /\ stop = [s \in Stoppers |-> "idle"] /\ acceptFault = "none"
-  /\ net = [c \in Conns |-> "none"] /\ inq = [c \in Conns |-> <<>>] /\ sent = [c \in Conns |-> 0] /\ nr = [c \in Conns |-> FALSE]
+  /\ net = [c \in Conns |-> "none"] /\ inq = [c \in Conns |-> <<>>] /\ sent = [c \in Conns |-> 0] /\ nr = [c \in Conns |-> FALSE] /\ rdl = [c \in Conns |-> FALSE]
   /\ ckind = [c \in Conns |-> "valid"] /\ tls = [c \in Conns |-> "plain"]
   /\ cpc = [c \in Conns |-> "none"] /\ cid = [c \in Conns |-> 0] /\ nreq = [c \in Conns |-> 0]
   /\ reqWg = [c \in Conns |-> 0] /\ hs = [c \in Conns |-> [i \in 1..(MaxReq + 1) |-> "none"]]
@@ -104,7 +106,7 @@ RunAccept(c) ==
   /\ run = "accept" /\ listener = "open" /\ net[c] = "backlog" /\ acceptFault # "pending"
   /\ net' = [net EXCEPT ![c] = "open"] /\ sock' = [sock EXCEPT ![c] = "open"]
   /\ run' = "register" /\ runArg' = c
-  /\ UNCHANGED <<runRes, listener, ready, ctxDone, connWg, nextID, alive, muR, stop, acceptFault, inq, sent, ckind, nr, cpc, tls, cid, nreq, reqWg, hs, onclose, afterUnbind, dispatched>>
+  /\ UNCHANGED <<runRes, listener, ready, ctxDone, connWg, nextID, alive, muR, stop, acceptFault, inq, sent, ckind, nr, rdl, cpc, tls, cid, nreq, reqWg, hs, onclose, afterUnbind, dispatched>>
 \* registration: under Server.mu with a re-check of the context (or, in the variant, a bare connWg.Add(1))
 RunRegister ==
   /\ run = "register"
@@ -135,16 +137,19 @@ StopWait(s) == /\ stop[s] = "wait" /\ connWg = 0 /\ stop' = [stop EXCEPT ![s] = 
 \* without a TLS listener the only difference a client can make is whether it answers a StartTLS upgrade ("silent" does not)
 ClientKinds == IF TLSMode = "none" THEN {"valid", "silent"} ELSE {"valid", "silent", "plaintext", "garbage", "nocert", "wrongca"}
 DialAs(c, k) == /\ net[c] = "none" /\ listener = "open" /\ net' = [net EXCEPT ![c] = "backlog"] /\ ckind' = [ckind EXCEPT ![c] = k]
-                /\ UNCHANGED <<srvVars, inq, sent, nr, conVars>>
+                /\ UNCHANGED <<srvVars, inq, sent, nr, rdl, conVars>>
 Dial(c) == DialAs(c, "valid")
 Send(c, k) == /\ net[c] \in {"backlog", "open"} /\ sent[c] < MaxReq
               /\ inq' = [inq EXCEPT ![c] = Append(@, k)] /\ sent' = [sent EXCEPT ![c] = @ + 1]
-              /\ UNCHANGED <<srvVars, net, ckind, nr, conVars>>
+              /\ UNCHANGED <<srvVars, net, ckind, nr, rdl, conVars>>
 \* the client stops reading its responses (a handler writing a large response then blocks in Write)
 StopReading(c) == /\ net[c] = "open" /\ ~nr[c] /\ nr' = [nr EXCEPT ![c] = TRUE]
-                  /\ UNCHANGED <<srvVars, net, inq, sent, ckind, conVars>>
+                  /\ UNCHANGED <<srvVars, net, inq, sent, ckind, rdl, conVars>>
 ClientClose(c) == /\ net[c] = "open" /\ net' = [net EXCEPT ![c] = "cclosed"]
-                  /\ UNCHANGED <<srvVars, inq, sent, ckind, nr, conVars>>
+                  /\ UNCHANGED <<srvVars, inq, sent, ckind, nr, rdl, conVars>>
+\* the read deadline of a connection expires (a timer: environment)
+ReadDeadline(c) == /\ ReadTimeout /\ sock[c] = "open" /\ ~rdl[c] /\ rdl' = [rdl EXCEPT ![c] = TRUE]
+                   /\ UNCHANGED <<srvVars, net, inq, sent, ckind, nr, conVars>>
 
 --------------------------------------------------------------------------
 (* connection goroutine: conn.serveRequests *)
@@ -162,13 +167,13 @@ HandshakeOK(c) == HandshakeOKFor(TLSMode, ckind[c])
 \* a silent client, or one that will talk plaintext but has not sent anything yet, keeps the handshake waiting
 HandshakePending(c) == ckind[c] = "silent" \/ (ckind[c] = "plaintext" /\ inq[c] = <<>>)
 ConnHandshake(c) ==
-  /\ cpc[c] = "read" /\ NeedsHandshake(c) /\ ~HandshakePending(c)
+  /\ cpc[c] = "read" /\ NeedsHandshake(c) /\ ~HandshakePending(c) /\ ~rdl[c]
   /\ IF HandshakeOK(c) THEN tls' = [tls EXCEPT ![c] = "tls"] /\ UNCHANGED cpc
      ELSE cpc' = [cpc EXCEPT ![c] = "exit"] /\ UNCHANGED tls        \* handshake failure is an ordinary read error
   /\ UNCHANGED <<srvVars, cliVars, cid, nreq, reqWg, hs, sock, onclose, afterUnbind, dispatched>>
 ConnRead(c) ==
-  /\ cpc[c] = "read" /\ (NeedsHandshake(c) => HandshakePending(c))
-  /\ \/ /\ ~NothingToRead(c) /\ ~NeedsHandshake(c)
+  /\ cpc[c] = "read" /\ (NeedsHandshake(c) => HandshakePending(c) \/ rdl[c])
+  /\ \/ /\ ~NothingToRead(c) /\ ~NeedsHandshake(c) /\ ~rdl[c]
         /\ LET k == Head(inq[c]) IN
            /\ inq' = [inq EXCEPT ![c] = Tail(@)]
            /\ CASE k = "op" -> \* default case: requestsWg.Add(1); go router.serve
@@ -186,19 +191,21 @@ ConnRead(c) ==
                      /\ cpc' = [cpc EXCEPT ![c] = "inline"] /\ UNCHANGED <<reqWg, afterUnbind>>
                 [] k \in {"bad", "partial"} -> \* malformed / unsupported (or half a frame glued to the next one): error return
                      /\ cpc' = [cpc EXCEPT ![c] = "exit"] /\ UNCHANGED <<reqWg, hs, afterUnbind, dispatched>>
+     \/ /\ rdl[c]                                          \* the connection's read deadline has expired: error return
+        /\ cpc' = [cpc EXCEPT ![c] = IF WakeOnCancel /\ ctxDone THEN "head" ELSE "exit"] /\ UNCHANGED <<inq, reqWg, hs, afterUnbind, dispatched>>
      \/ /\ NothingToRead(c) /\ net[c] = "cclosed"           \* EOF (possibly in the middle of a frame)
         /\ cpc' = [cpc EXCEPT ![c] = "exit"] /\ UNCHANGED <<inq, reqWg, hs, afterUnbind, dispatched>>
      \/ /\ NothingToRead(c) /\ WakeOnCancel /\ ctxDone      \* read deadline: back to the loop head
         /\ cpc' = [cpc EXCEPT ![c] = "head"] /\ UNCHANGED <<inq, reqWg, hs, afterUnbind, dispatched>>
-  /\ UNCHANGED <<srvVars, net, sent, ckind, nr, tls, cid, nreq, sock, onclose>>
+  /\ UNCHANGED <<srvVars, net, sent, ckind, nr, rdl, tls, cid, nreq, sock, onclose>>
 \* the inline (StartTLS) handler returns
 \* (Request.StartTLS handshakes on the raw connection, then swaps reader and writer; with a client that never
 \* starts the handshake it only returns - with an error - once the shutdown deadline or the client's close ends the wait)
 ConnInlineReturn(c) ==
   /\ cpc[c] = "inline" /\ hs' = [hs EXCEPT ![c][nreq[c]] = "done"] /\ cpc' = [cpc EXCEPT ![c] = "head"]
   /\ IF TLSMode = "none" /\ ckind[c] = "silent"
-       THEN ((WakeOnCancel /\ ctxDone) \/ net[c] = "cclosed") /\ UNCHANGED tls
-       ELSE tls' = [tls EXCEPT ![c] = "tls"]
+       THEN ((WakeOnCancel /\ ctxDone) \/ net[c] = "cclosed" \/ rdl[c]) /\ UNCHANGED tls
+       ELSE tls' = [tls EXCEPT ![c] = IF rdl[c] THEN @ ELSE "tls"]     \* (an expired read deadline fails the handshake at once)
   /\ UNCHANGED <<srvVars, cliVars, cid, nreq, reqWg, sock, onclose, afterUnbind, dispatched>>
 \* the inline handler panics: recovered on the connection goroutine, which then ends this connection
 ConnInlinePanic(c) ==
@@ -240,7 +247,7 @@ Server == \/ RunListen \/ RunLoopHead \/ RunAcceptClosed \/ RunRegister \/ RunAc
           \/ \E c \in Conns, i \in 1..(MaxReq + 1) : HReturn(c, i)
           \/ \E s \in Stoppers : StopClose(s) \/ StopCancel(s) \/ StopWait(s)
 Env == \/ RunStart \/ AcceptFault \/ (\E s \in Stoppers : StopBegin(s)) \/ (\E c \in Conns : ConnInlinePanic(c))
-       \/ \E c \in Conns : (\E k \in ClientKinds : DialAs(c, k)) \/ ClientClose(c) \/ StopReading(c) \/ (\E k \in FrameKinds : Send(c, k))
+       \/ \E c \in Conns : (\E k \in ClientKinds : DialAs(c, k)) \/ ClientClose(c) \/ StopReading(c) \/ ReadDeadline(c) \/ (\E k \in FrameKinds : Send(c, k))
        \/ \E c \in Conns, i \in 1..(MaxReq + 1) : HHold(c, i) \/ HRelease(c, i) \/ HPanic(c, i)
 Next == alive /\ (Server \/ Env)
 \* fairness of the server's own steps only: clients and user code (held handlers) may do nothing forever
@@ -292,5 +299,5 @@ HandlersOnlyAfterTLS == TLSMode # "none" => \A c \in Conns : (\E i \in Reqs : hs
 StartTLSAtomic == \A c \in Conns : cpc[c] = "inline" => ~ENABLED ConnRead(c)
 \* C07: a temporary accept failure does not end the server
 KeepsAccepting == (run = "returned" /\ runRes = "error") => ListenFails
-View == <<run, runArg, runRes, listener, ready, ctxDone, connWg, nextID, alive, muR, stop, acceptFault, net, inq, sent, ckind, nr, cpc, tls, cid, nreq, reqWg, hs, sock, onclose, afterUnbind>>
+View == <<run, runArg, runRes, listener, ready, ctxDone, connWg, nextID, alive, muR, stop, acceptFault, net, inq, sent, ckind, nr, rdl, cpc, tls, cid, nreq, reqWg, hs, sock, onclose, afterUnbind>>
 ==========================================================================
